@@ -131,7 +131,23 @@ def bind_first(ops_sent):
     return True
 
 
+def trace_oracle(summary):
+    viol = []
+    names = [n for n, v in summary["events"]]
+    for once in ("code", "key", "verifier", "versions", "closed"):
+        if names.count(once) > 1:
+            viol.append(("event-repeated:" + once, f"{once} notified {names.count(once)} times: {names}"))
+    for ent in summary["internal"]:
+        viol.append(("internal:" + ent[0], f"internal failure {ent}"))
+    return viol
+
+
+EXTRA_TARGETS = ["wvsearch"]
+
+
 def run_case(case):
+    if case.get("kind") == "trace":
+        return mc.run_trace_case(case, trace_oracle)
     if case.get("kind") == "pair":
         return run_pair(case)
     if "ops" in case:
@@ -157,6 +173,9 @@ def run_case(case):
 
 
 def shrink(case):
+    if case.get("kind") == "trace":
+        yield from mc.trace_shrink(case)
+        return
     if case.get("kind") == "pair":
         for k in (0, 1):
             if case["nmsg"][k] > 0:
@@ -174,6 +193,7 @@ def shrink(case):
 
 def search(rng, seconds, seeds):
     t0 = time.time()
+    yield from mc.model_guided(trace_oracle)
     for c in seeds:
         yield c, run_case(c)
     while time.time() - t0 < seconds:
